@@ -36,6 +36,7 @@ def body(r):
     n_ns, n_ins = (70, 50) if r.tier == "quick" else (2200, 1400)
     swarm.run_swarm(r, PROP, worlds_for(r, n_ns, n_ins), judges_=JUDGES, oracles=ORACLES)
     return r.finish(
+        minimise=swarm.make_minimiser(PROP, JUDGES, ORACLES),
         rule=("seeded swarm over tolerances, iteration caps/minimums, every INS criterion and alias, single and "
               "multiple criteria with any/all. Per iteration the monitor recomputes the compared quantity "
               "(NS: remaining-evidence estimate from the state after removal; INS: ess = Kish ESS, log_dZ, "
